@@ -81,11 +81,9 @@ def has_kind(j, k):
 
 
 def gen_case(rng, tier):
-    c = gen_case0(rng, tier)
-    # numpy-integer labels and tuple labels are not mixed in one history:
-    # np.int64(4) == ('t', 2) is an array in NumPy, see KNOWN_FINDINGS (np_tuple_mix)
-    f = strip_tuples if rng.random() < 0.3 else strip_np
-    return {"init": f(c["init"]), "steps": f(c["steps"])}
+    # numpy-integer labels and tuple labels are mixed freely again: the defect recorded as
+    # C13-np-tuple (np.int64(4) == ('t', 2) is an array in NumPy) was repaired in /repo (6afc2cb)
+    return gen_case0(rng, tier)
 
 
 def gen_case0(rng, tier):
@@ -106,14 +104,14 @@ def gen_case0(rng, tier):
         elif r < 0.70:
             # relabel: partial / swap / cycle / conflicting / absent keys
             k = rng.randint(1, 4)
-            keys = [rand_label(rng, False) for _ in range(k)]
+            keys = [rand_label(rng) for _ in range(k)]
             mode = rng.random()
             if mode < 0.35:
                 vals = keys[1:] + keys[:1]          # cycle / swap
             elif mode < 0.5:
                 vals = list(reversed(keys))
             else:
-                vals = [rand_label(rng, False) for _ in range(k)]
+                vals = [rand_label(rng) for _ in range(k)]
             steps.append(["relabel", [[a, b] for a, b in zip(keys, vals)]])
         elif r < 0.76:
             steps.append(["relabel_ints"])
@@ -203,7 +201,7 @@ def run_case0(c, mix):
                 seenk = []
                 for a, b in st[1]:
                     a, b = dec(a), dec(b)
-                    if any(a == k for k in seenk):
+                    if any(safe_eq(a, k) for k in seenk):
                         continue
                     seenk.append(a)
                     pairs.append((a, b))
